@@ -19,8 +19,8 @@ Init == l = 1 /\ sent = <<>> /\ handled = {} /\ received = {}
 PairSet(q) == {q[i] : i \in 1..Len(q)}
 ReqOf(e) == [method |-> e.req.method, segs |-> e.req.segs, query |-> e.req.query, headers |-> e.req.headers,
              blen |-> e.req.blen, bseed |-> 0]
-RespOf(e) == [code |-> e.resp.code, headers |-> e.resp.headers, kind |-> "bytes", blen |-> e.resp.blen, bseed |-> 0,
-              json |-> 0, fsize |-> 0]
+RespOf(e) == [code |-> e.resp.code, headers |-> e.resp.headers, kind |-> IF e.resp.fsize >= 0 THEN "file" ELSE "bytes",
+              blen |-> e.resp.blen, bseed |-> 0, json |-> 0, fsize |-> e.resp.fsize]
 
 Step ==
   /\ l <= Len(T) /\ l' = l + 1
